@@ -219,6 +219,15 @@ def check (pid : String) (j : Json) : Except String Verdict := do
       evicts := evicts ++ [(idx, n)]
       r := r.step V tn (.evict n) s!"evict {n}"
     | "end" => pure ()
+    | "streamfail" =>
+      -- a transient stream failure + reconnect: no step of the lookup model (waiting lookups are not concerned)
+      match (jArr e "woke").toOption.map (·.toList) with
+      | some (w :: _) =>
+        let t := match w with | .arr p => (p[0]!).getNat?.toOption.getD 0 | _ => 0
+        r := r.fail s!"stream failure: the implementation's lookup {t} left its select; in the model a stream failure does not touch waiting lookups"
+        return { nontrivial := true, mismatch := r.mismatch
+                 specfail := some s!"{if pid = "C07" then "C07.explained_by_a_sequential_order" else if pid = "C05" then "C05.error_only_at_deadline" else "C06.no_lost_wakeup"}: a transient stream failure ended the waiting lookup {t} of {tn t} long before its deadline; the client reconnects and the response that supplies {tn t} is accepted on the new stream well inside that deadline" }
+      | _ => pure ()
     | "stuck" =>
       let what := jStrD e "what" ""
       r := r.fail s!"stuck: {what}; in the model every party can always take its next step (locks are given back)"
